@@ -1,6 +1,7 @@
 // C12 — generic Encode / Decode impls against the trait contracts.
 // Template: plain lines are hand-written specification (never code);
 // `//@` directives pull the real source text from /repo on every run.
+#![feature(allocator_api)]
 #![allow(unused_imports, unused_variables, dead_code, non_snake_case)]
 use vstd::prelude::*;
 use vstd::std_specs::convert::*;
@@ -500,6 +501,113 @@ impl Wire for char { open spec fn bytes(&self) -> Seq<u8> { leb(*self as u32 as 
 //@ member decode
 //@ end
 
+
+
+// injectivity of the primitive images (from prefix-freeness with empty tails)
+pub broadcast proof fn lemma_inj_u8(x: u8, y: u8)
+    requires #[trigger] x.bytes() == #[trigger] y.bytes()
+    ensures x == y
+{
+    broadcast use lemma_cat_empty;
+    assert(x.bytes()[0] == x && y.bytes()[0] == y);
+}
+pub broadcast proof fn lemma_inj_u16(x: u16, y: u16)
+    requires #[trigger] x.bytes() == #[trigger] y.bytes()
+    ensures x == y
+{
+    broadcast use lemma_cat_empty;
+    lemma_leb_prefix_free(x as nat, y as nat, Seq::<u8>::empty(), Seq::<u8>::empty());
+}
+pub broadcast proof fn lemma_inj_u32(x: u32, y: u32)
+    requires #[trigger] x.bytes() == #[trigger] y.bytes()
+    ensures x == y
+{
+    broadcast use lemma_cat_empty;
+    lemma_leb_prefix_free(x as nat, y as nat, Seq::<u8>::empty(), Seq::<u8>::empty());
+}
+pub broadcast proof fn lemma_inj_u64(x: u64, y: u64)
+    requires #[trigger] x.bytes() == #[trigger] y.bytes()
+    ensures x == y
+{
+    broadcast use lemma_cat_empty;
+    lemma_leb_prefix_free(x as nat, y as nat, Seq::<u8>::empty(), Seq::<u8>::empty());
+}
+pub broadcast proof fn lemma_inj_u128(x: u128, y: u128)
+    requires #[trigger] x.bytes() == #[trigger] y.bytes()
+    ensures x == y
+{
+    broadcast use lemma_cat_empty;
+    lemma_leb_prefix_free(x as nat, y as nat, Seq::<u8>::empty(), Seq::<u8>::empty());
+}
+pub broadcast proof fn lemma_inj_usize(x: usize, y: usize)
+    requires #[trigger] x.bytes() == #[trigger] y.bytes()
+    ensures x == y
+{
+    broadcast use lemma_cat_empty;
+    lemma_leb_prefix_free(x as nat, y as nat, Seq::<u8>::empty(), Seq::<u8>::empty());
+}
+pub broadcast proof fn lemma_inj_i8(x: i8, y: i8)
+    requires #[trigger] x.bytes() == #[trigger] y.bytes()
+    ensures x == y
+{
+    broadcast use lemma_cat_empty;
+    assert(x.bytes()[0] == x as u8 && y.bytes()[0] == y as u8);
+    assert(x as u8 == y as u8 ==> x == y) by (bit_vector);
+}
+pub broadcast proof fn lemma_inj_i16(x: i16, y: i16)
+    requires #[trigger] x.bytes() == #[trigger] y.bytes()
+    ensures x == y
+{
+    broadcast use lemma_cat_empty;
+    lemma_leb_prefix_free(zz(x as int), zz(y as int), Seq::<u8>::empty(), Seq::<u8>::empty());
+    lemma_zz_injective(x as int, y as int);
+}
+pub broadcast proof fn lemma_inj_i32(x: i32, y: i32)
+    requires #[trigger] x.bytes() == #[trigger] y.bytes()
+    ensures x == y
+{
+    broadcast use lemma_cat_empty;
+    lemma_leb_prefix_free(zz(x as int), zz(y as int), Seq::<u8>::empty(), Seq::<u8>::empty());
+    lemma_zz_injective(x as int, y as int);
+}
+pub broadcast proof fn lemma_inj_i64(x: i64, y: i64)
+    requires #[trigger] x.bytes() == #[trigger] y.bytes()
+    ensures x == y
+{
+    broadcast use lemma_cat_empty;
+    lemma_leb_prefix_free(zz(x as int), zz(y as int), Seq::<u8>::empty(), Seq::<u8>::empty());
+    lemma_zz_injective(x as int, y as int);
+}
+pub broadcast proof fn lemma_inj_i128(x: i128, y: i128)
+    requires #[trigger] x.bytes() == #[trigger] y.bytes()
+    ensures x == y
+{
+    broadcast use lemma_cat_empty;
+    lemma_leb_prefix_free(zz(x as int), zz(y as int), Seq::<u8>::empty(), Seq::<u8>::empty());
+    lemma_zz_injective(x as int, y as int);
+}
+pub broadcast proof fn lemma_inj_isize(x: isize, y: isize)
+    requires #[trigger] x.bytes() == #[trigger] y.bytes()
+    ensures x == y
+{
+    broadcast use lemma_cat_empty;
+    lemma_leb_prefix_free(zz(x as int), zz(y as int), Seq::<u8>::empty(), Seq::<u8>::empty());
+    lemma_zz_injective(x as int, y as int);
+}
+pub broadcast group group_inj {
+    lemma_inj_u8,
+    lemma_inj_u16,
+    lemma_inj_u32,
+    lemma_inj_u64,
+    lemma_inj_u128,
+    lemma_inj_usize,
+    lemma_inj_i8,
+    lemma_inj_i16,
+    lemma_inj_i32,
+    lemma_inj_i64,
+    lemma_inj_i128,
+    lemma_inj_isize,
+}
 
 // ---------------------------------------------------------------- references and smart pointers (transparent)
 impl<T: Wire + ?Sized> Wire for &T { open spec fn bytes(&self) -> Seq<u8> { (**self).bytes() } }
@@ -1150,6 +1258,461 @@ pub broadcast proof fn lemma_vec_len_fits<T: Wire>(v: Vec<T>)
                 lemma_seq_dec_step::<T>(before, len, got0, rest0, Ok(vec@.last()), decoder.rest());
                 assert(got0.push(vec@.last()) =~= vec@);
             }
+//@ end
+
+
+// ---------------------------------------------------------------- slices, boxed / shared slices, arrays
+impl<T: Wire> Wire for [T] { open spec fn bytes(&self) -> Seq<u8> { seq_bytes(self@) } }
+impl<T: Wire, const N: usize> Wire for [T; N] { open spec fn bytes(&self) -> Seq<u8> { concat(self@) } }
+
+pub broadcast proof fn lemma_slice_len_fits<T: Wire>(v: &[T])
+    ensures #[trigger] v.bytes() == seq_bytes(v@), v@.len() <= usize::MAX
+{
+    let n = v.len();
+    assert(n == v@.len());
+}
+
+// std facts (trusted): these conversions keep the element sequence
+pub assume_specification<T, A: std::alloc::Allocator>[ Vec::<T, A>::into_boxed_slice ](v: Vec<T, A>) -> (r: Box<[T], A>)
+    ensures r@ == v@;
+
+#[verifier::external_body]
+pub proof fn axiom_arc_slice_from_vec<T>()
+    ensures
+        <Arc<[T]> as FromSpec<Vec<T>>>::obeys_from_spec(),
+        forall|v: Vec<T>| (#[trigger] <Arc<[T]> as FromSpec<Vec<T>>>::from_spec(v))@ == v@,
+{
+}
+
+#[verifier::external_body]
+pub proof fn axiom_rc_slice_from_vec<T>()
+    ensures
+        <Rc<[T]> as FromSpec<Vec<T>>>::obeys_from_spec(),
+        forall|v: Vec<T>| (#[trigger] <Rc<[T]> as FromSpec<Vec<T>>>::from_spec(v))@ == v@,
+{
+}
+
+//@ impl crates/serialize/src/encode.rs :: impl<T: Encode> Encode for [T]
+//@ member encode
+//@ head
+        broadcast use lemma_take_all, lemma_cat_empty;
+//@ loop 0 iter __it
+//@ loop 0 inv
+            invariant encoder.out() =~= old(encoder).out() + leb(self@.len()) + concat(self@.take(__it.index@ as int)),
+//@ loop 0 head
+            proof { lemma_concat_take_step(self@, __it.index@ as int); }
+//@ end
+
+//@ impl crates/serialize/src/encode.rs :: impl<T: Encode, const N: usize> Encode for [T; N]
+//@ member encode
+//@ head
+        broadcast use lemma_take_all, lemma_take0, lemma_cat_empty;
+//@ loop 0 iter __it
+//@ loop 0 inv
+            invariant encoder.out() =~= old(encoder).out() + concat(self@.take(__it.index@ as int)),
+//@ loop 0 head
+            proof { lemma_concat_take_step(self@, __it.index@ as int); }
+//@ end
+
+//@ impl crates/serialize/src/decode.rs :: impl<T: Decode> Decode for Box<[T]>
+//@ extra
+    proof fn prefix_free(a: &Self, b: &Self, ta: Seq<u8>, tb: Seq<u8>) {
+        lemma_seq_bytes_prefix_free(a@, b@, ta, tb);
+    }
+//@ member decode
+//@ head
+        broadcast use lemma_seq_bytes_as_usize, lemma_vec_len_fits, lemma_slice_len_fits, lemma_take0, lemma_skip0, lemma_cat_empty;
+        let ghost before = decoder.rest();
+//@ loop 0 iter __it
+//@ loop 0 inv
+            invariant
+                before == old(decoder).rest(),
+                seq_dec_inv::<T>(before, len, vec@, decoder.rest()),
+                vec@.len() == __it.index@,
+//@ loop 0 head
+            broadcast use lemma_seq_bytes_as_usize, lemma_vec_len_fits, lemma_slice_len_fits;
+            let ghost rest0 = decoder.rest();
+            let ghost got0 = vec@;
+            proof { lemma_seq_dec_peek(before, len, got0, rest0); }
+//@ loop 0 tail
+            proof {
+                lemma_seq_dec_step::<T>(before, len, got0, rest0, Ok(vec@.last()), decoder.rest());
+                assert(got0.push(vec@.last()) =~= vec@);
+            }
+//@ end
+//@ impl crates/serialize/src/decode.rs :: impl<T: Decode> Decode for Arc<[T]>
+//@ extra
+    proof fn prefix_free(a: &Self, b: &Self, ta: Seq<u8>, tb: Seq<u8>) {
+        lemma_seq_bytes_prefix_free(a@, b@, ta, tb);
+    }
+//@ member decode
+//@ head
+        broadcast use lemma_seq_bytes_as_usize, lemma_vec_len_fits, lemma_slice_len_fits, lemma_take0, lemma_skip0, lemma_cat_empty;
+        proof { axiom_arc_slice_from_vec::<T>(); }
+        let ghost before = decoder.rest();
+//@ loop 0 iter __it
+//@ loop 0 inv
+            invariant
+                before == old(decoder).rest(),
+                seq_dec_inv::<T>(before, len, vec@, decoder.rest()),
+                vec@.len() == __it.index@,
+//@ loop 0 head
+            broadcast use lemma_seq_bytes_as_usize, lemma_vec_len_fits, lemma_slice_len_fits;
+            let ghost rest0 = decoder.rest();
+            let ghost got0 = vec@;
+            proof { lemma_seq_dec_peek(before, len, got0, rest0); }
+//@ loop 0 tail
+            proof {
+                lemma_seq_dec_step::<T>(before, len, got0, rest0, Ok(vec@.last()), decoder.rest());
+                assert(got0.push(vec@.last()) =~= vec@);
+            }
+//@ end
+//@ impl crates/serialize/src/decode.rs :: impl<T: Decode> Decode for Rc<[T]>
+//@ extra
+    proof fn prefix_free(a: &Self, b: &Self, ta: Seq<u8>, tb: Seq<u8>) {
+        lemma_seq_bytes_prefix_free(a@, b@, ta, tb);
+    }
+//@ member decode
+//@ head
+        broadcast use lemma_seq_bytes_as_usize, lemma_vec_len_fits, lemma_slice_len_fits, lemma_take0, lemma_skip0, lemma_cat_empty;
+        proof { axiom_rc_slice_from_vec::<T>(); }
+        let ghost before = decoder.rest();
+//@ loop 0 iter __it
+//@ loop 0 inv
+            invariant
+                before == old(decoder).rest(),
+                seq_dec_inv::<T>(before, len, vec@, decoder.rest()),
+                vec@.len() == __it.index@,
+//@ loop 0 head
+            broadcast use lemma_seq_bytes_as_usize, lemma_vec_len_fits, lemma_slice_len_fits;
+            let ghost rest0 = decoder.rest();
+            let ghost got0 = vec@;
+            proof { lemma_seq_dec_peek(before, len, got0, rest0); }
+//@ loop 0 tail
+            proof {
+                lemma_seq_dec_step::<T>(before, len, got0, rest0, Ok(vec@.last()), decoder.rest());
+                assert(got0.push(vec@.last()) =~= vec@);
+            }
+//@ end
+
+
+// ---------------------------------------------------------------- transparent std wrappers
+#[verifier::external_type_specification]
+pub struct ExWrapping<T>(std::num::Wrapping<T>);
+#[verifier::external_type_specification]
+pub struct ExReverse<T>(std::cmp::Reverse<T>);
+
+impl<T: Wire> Wire for std::num::Wrapping<T> { open spec fn bytes(&self) -> Seq<u8> { self.0.bytes() } }
+impl<T: Wire> Wire for std::cmp::Reverse<T> { open spec fn bytes(&self) -> Seq<u8> { self.0.bytes() } }
+impl<T> Wire for std::marker::PhantomData<T> { open spec fn bytes(&self) -> Seq<u8> { Seq::<u8>::empty() } }
+
+//@ impl crates/serialize/src/encode.rs :: impl<T: Encode> Encode for std::num::Wrapping<T>
+//@ member encode
+//@ end
+//@ impl crates/serialize/src/decode.rs :: impl<T: Decode> Decode for std::num::Wrapping<T>
+//@ extra
+    proof fn prefix_free(a: &Self, b: &Self, ta: Seq<u8>, tb: Seq<u8>) { T::prefix_free(&a.0, &b.0, ta, tb); }
+//@ member decode
+//@ end
+//@ impl crates/serialize/src/encode.rs :: impl<T: Encode> Encode for std::cmp::Reverse<T>
+//@ member encode
+//@ end
+//@ impl crates/serialize/src/decode.rs :: impl<T: Decode> Decode for std::cmp::Reverse<T>
+//@ extra
+    proof fn prefix_free(a: &Self, b: &Self, ta: Seq<u8>, tb: Seq<u8>) { T::prefix_free(&a.0, &b.0, ta, tb); }
+//@ member decode
+//@ end
+//@ impl crates/serialize/src/encode.rs :: impl<T: Encode> Encode for std::marker::PhantomData<T>
+//@ member encode
+//@ head
+        broadcast use lemma_cat_empty;
+//@ end
+//@ impl crates/serialize/src/decode.rs :: impl<T> Decode for std::marker::PhantomData<T>
+//@ extra
+    proof fn prefix_free(a: &Self, b: &Self, ta: Seq<u8>, tb: Seq<u8>) { broadcast use lemma_cat_empty; }
+//@ member decode
+//@ head
+        broadcast use lemma_cat_empty;
+//@ end
+
+// ---------------------------------------------------------------- Cell (std model, trusted): a Cell holds one value
+#[verifier::external_type_specification]
+#[verifier::external_body]
+#[verifier::reject_recursive_types(T)]
+pub struct ExCell<T: ?Sized>(std::cell::Cell<T>);
+pub uninterp spec fn cell_val<T>(c: &std::cell::Cell<T>) -> T;
+pub assume_specification<T: Copy>[ std::cell::Cell::<T>::get ](c: &std::cell::Cell<T>) -> (r: T)
+    ensures r == cell_val(c);
+pub assume_specification<T>[ std::cell::Cell::<T>::new ](v: T) -> (r: std::cell::Cell<T>)
+    ensures cell_val(&r) == v;
+impl<T: Wire> Wire for std::cell::Cell<T> { open spec fn bytes(&self) -> Seq<u8> { cell_val(self).bytes() } }
+//@ impl crates/serialize/src/encode.rs :: impl<T: Encode + Copy> Encode for std::cell::Cell<T>
+//@ member encode
+//@ end
+//@ impl crates/serialize/src/decode.rs :: impl<T: Decode + Copy> Decode for std::cell::Cell<T>
+//@ extra
+    proof fn prefix_free(a: &Self, b: &Self, ta: Seq<u8>, tb: Seq<u8>) { T::prefix_free(&cell_val(a), &cell_val(b), ta, tb); }
+//@ member decode
+//@ end
+
+// ---------------------------------------------------------------- Duration (std model, trusted): (secs, nanos < 10^9)
+pub uninterp spec fn dur_secs(d: &std::time::Duration) -> u64;
+pub uninterp spec fn dur_nanos(d: &std::time::Duration) -> u32;
+#[verifier::external_body]
+pub broadcast proof fn axiom_duration_nanos(d: &std::time::Duration)
+    ensures #[trigger] dur_nanos(d) < 1_000_000_000u32
+{
+}
+pub assume_specification[ std::time::Duration::as_secs ](d: &std::time::Duration) -> (r: u64)
+    ensures r == dur_secs(d);
+pub assume_specification[ std::time::Duration::subsec_nanos ](d: &std::time::Duration) -> (r: u32)
+    ensures r == dur_nanos(d);
+pub assume_specification[ std::time::Duration::new ](secs: u64, nanos: u32) -> (r: std::time::Duration)
+    ensures nanos < 1_000_000_000u32 ==> (dur_secs(&r) == secs && dur_nanos(&r) == nanos);
+impl Wire for std::time::Duration { open spec fn bytes(&self) -> Seq<u8> { dur_secs(self).bytes() + dur_nanos(self).bytes() } }
+//@ impl crates/serialize/src/encode.rs :: impl Encode for std::time::Duration
+//@ member encode
+//@ head
+        broadcast use lemma_cat_assoc;
+//@ end
+//@ impl crates/serialize/src/decode.rs :: impl Decode for std::time::Duration
+//@ extra
+    proof fn prefix_free(a: &Self, b: &Self, ta: Seq<u8>, tb: Seq<u8>) {
+        broadcast use lemma_cat_assoc;
+        u64::prefix_free(&dur_secs(a), &dur_secs(b), dur_nanos(a).bytes() + ta, dur_nanos(b).bytes() + tb);
+        u32::prefix_free(&dur_nanos(a), &dur_nanos(b), ta, tb);
+    }
+//@ member decode
+//@ head
+        broadcast use lemma_cat_assoc, axiom_duration_nanos, group_inj;
+//@ end
+
+// ---------------------------------------------------------------- ranges and Bound
+impl<T: Wire> Wire for std::ops::Range<T> { open spec fn bytes(&self) -> Seq<u8> { self.start.bytes() + self.end.bytes() } }
+impl<T: Wire> Wire for std::ops::RangeFrom<T> { open spec fn bytes(&self) -> Seq<u8> { self.start.bytes() } }
+impl<T: Wire> Wire for std::ops::RangeTo<T> { open spec fn bytes(&self) -> Seq<u8> { self.end.bytes() } }
+impl<T: Wire> Wire for std::ops::RangeToInclusive<T> { open spec fn bytes(&self) -> Seq<u8> { self.end.bytes() } }
+impl Wire for std::ops::RangeFull { open spec fn bytes(&self) -> Seq<u8> { Seq::<u8>::empty() } }
+impl<T: Wire> Wire for std::ops::Bound<T> {
+    open spec fn bytes(&self) -> Seq<u8> {
+        match self {
+            std::ops::Bound::Unbounded => seq![0u8],
+            std::ops::Bound::Included(v) => seq![1u8] + v.bytes(),
+            std::ops::Bound::Excluded(v) => seq![2u8] + v.bytes(),
+        }
+    }
+}
+//@ impl crates/serialize/src/encode.rs :: impl<T: Encode> Encode for std::ops::Range<T>
+//@ member encode
+//@ head
+        broadcast use lemma_cat_assoc;
+//@ end
+//@ impl crates/serialize/src/decode.rs :: impl<T: Decode> Decode for std::ops::Range<T>
+//@ extra
+    proof fn prefix_free(a: &Self, b: &Self, ta: Seq<u8>, tb: Seq<u8>) {
+        broadcast use lemma_cat_assoc;
+        T::prefix_free(&a.start, &b.start, a.end.bytes() + ta, b.end.bytes() + tb);
+        T::prefix_free(&a.end, &b.end, ta, tb);
+    }
+//@ member decode
+//@ head
+        broadcast use lemma_cat_assoc;
+//@ end
+//@ impl crates/serialize/src/encode.rs :: impl<T: Encode> Encode for std::ops::RangeFrom<T>
+//@ member encode
+//@ end
+//@ impl crates/serialize/src/decode.rs :: impl<T: Decode> Decode for std::ops::RangeFrom<T>
+//@ extra
+    proof fn prefix_free(a: &Self, b: &Self, ta: Seq<u8>, tb: Seq<u8>) { T::prefix_free(&a.start, &b.start, ta, tb); }
+//@ member decode
+//@ end
+//@ impl crates/serialize/src/encode.rs :: impl<T: Encode> Encode for std::ops::RangeTo<T>
+//@ member encode
+//@ end
+//@ impl crates/serialize/src/decode.rs :: impl<T: Decode> Decode for std::ops::RangeTo<T>
+//@ extra
+    proof fn prefix_free(a: &Self, b: &Self, ta: Seq<u8>, tb: Seq<u8>) { T::prefix_free(&a.end, &b.end, ta, tb); }
+//@ member decode
+//@ end
+//@ impl crates/serialize/src/encode.rs :: impl<T: Encode> Encode for std::ops::RangeToInclusive<T>
+//@ member encode
+//@ end
+//@ impl crates/serialize/src/decode.rs :: impl<T: Decode> Decode for std::ops::RangeToInclusive<T>
+//@ extra
+    proof fn prefix_free(a: &Self, b: &Self, ta: Seq<u8>, tb: Seq<u8>) { T::prefix_free(&a.end, &b.end, ta, tb); }
+//@ member decode
+//@ end
+//@ impl crates/serialize/src/encode.rs :: impl Encode for std::ops::RangeFull
+//@ member encode
+//@ head
+        broadcast use lemma_cat_empty;
+//@ end
+//@ impl crates/serialize/src/decode.rs :: impl Decode for std::ops::RangeFull
+//@ extra
+    proof fn prefix_free(a: &Self, b: &Self, ta: Seq<u8>, tb: Seq<u8>) { broadcast use lemma_cat_empty; }
+//@ member decode
+//@ head
+        broadcast use lemma_cat_empty;
+//@ end
+//@ impl crates/serialize/src/encode.rs :: impl<T: Encode> Encode for std::ops::Bound<T>
+//@ member encode
+//@ end
+//@ impl crates/serialize/src/decode.rs :: impl<T: Decode> Decode for std::ops::Bound<T>
+//@ extra
+    proof fn prefix_free(a: &Self, b: &Self, ta: Seq<u8>, tb: Seq<u8>) {
+        broadcast use lemma_cat_assoc;
+        let sa = a.bytes() + ta;
+        let sb = b.bytes() + tb;
+        let tag_a: u8 = match a { std::ops::Bound::Unbounded => 0u8, std::ops::Bound::Included(_) => 1u8, std::ops::Bound::Excluded(_) => 2u8 };
+        let tag_b: u8 = match b { std::ops::Bound::Unbounded => 0u8, std::ops::Bound::Included(_) => 1u8, std::ops::Bound::Excluded(_) => 2u8 };
+        let pa = match a { std::ops::Bound::Unbounded => ta, std::ops::Bound::Included(v) => v.bytes() + ta, std::ops::Bound::Excluded(v) => v.bytes() + ta };
+        let pb = match b { std::ops::Bound::Unbounded => tb, std::ops::Bound::Included(v) => v.bytes() + tb, std::ops::Bound::Excluded(v) => v.bytes() + tb };
+        assert(sa =~= seq![tag_a] + pa);
+        assert(sb =~= seq![tag_b] + pb);
+        lemma_one_byte_split(tag_a, tag_b, pa, pb);
+        match (a, b) {
+            (std::ops::Bound::Included(x), std::ops::Bound::Included(y)) => { T::prefix_free(x, y, ta, tb); }
+            (std::ops::Bound::Excluded(x), std::ops::Bound::Excluded(y)) => { T::prefix_free(x, y, ta, tb); }
+            _ => {}
+        }
+    }
+//@ member decode
+//@ head
+        broadcast use lemma_tag_split, lemma_tag_only;
+//@ end
+
+// ---------------------------------------------------------------- NonZero*: image of the underlying integer
+impl Wire for std::num::NonZeroU8 { open spec fn bytes(&self) -> Seq<u8> { (self@ as u8).bytes() } }
+//@ macro crates/serialize/src/encode.rs :: impl_encode_nonzero! :: impl Encode for std::num::NonZeroU8
+//@ member encode
+//@ end
+//@ macro crates/serialize/src/decode.rs :: impl_decode_nonzero!(std::num::NonZeroU8, u8)
+//@ extra
+    proof fn prefix_free(a: &Self, b: &Self, ta: Seq<u8>, tb: Seq<u8>) { u8::prefix_free(&(a@ as u8), &(b@ as u8), ta, tb); }
+//@ member decode
+//@ head
+        broadcast use group_inj;
+//@ end
+impl Wire for std::num::NonZeroU16 { open spec fn bytes(&self) -> Seq<u8> { (self@ as u16).bytes() } }
+//@ macro crates/serialize/src/encode.rs :: impl_encode_nonzero! :: impl Encode for std::num::NonZeroU16
+//@ member encode
+//@ end
+//@ macro crates/serialize/src/decode.rs :: impl_decode_nonzero!(std::num::NonZeroU16, u16)
+//@ extra
+    proof fn prefix_free(a: &Self, b: &Self, ta: Seq<u8>, tb: Seq<u8>) { u16::prefix_free(&(a@ as u16), &(b@ as u16), ta, tb); }
+//@ member decode
+//@ head
+        broadcast use group_inj;
+//@ end
+impl Wire for std::num::NonZeroU32 { open spec fn bytes(&self) -> Seq<u8> { (self@ as u32).bytes() } }
+//@ macro crates/serialize/src/encode.rs :: impl_encode_nonzero! :: impl Encode for std::num::NonZeroU32
+//@ member encode
+//@ end
+//@ macro crates/serialize/src/decode.rs :: impl_decode_nonzero!(std::num::NonZeroU32, u32)
+//@ extra
+    proof fn prefix_free(a: &Self, b: &Self, ta: Seq<u8>, tb: Seq<u8>) { u32::prefix_free(&(a@ as u32), &(b@ as u32), ta, tb); }
+//@ member decode
+//@ head
+        broadcast use group_inj;
+//@ end
+impl Wire for std::num::NonZeroU64 { open spec fn bytes(&self) -> Seq<u8> { (self@ as u64).bytes() } }
+//@ macro crates/serialize/src/encode.rs :: impl_encode_nonzero! :: impl Encode for std::num::NonZeroU64
+//@ member encode
+//@ end
+//@ macro crates/serialize/src/decode.rs :: impl_decode_nonzero!(std::num::NonZeroU64, u64)
+//@ extra
+    proof fn prefix_free(a: &Self, b: &Self, ta: Seq<u8>, tb: Seq<u8>) { u64::prefix_free(&(a@ as u64), &(b@ as u64), ta, tb); }
+//@ member decode
+//@ head
+        broadcast use group_inj;
+//@ end
+impl Wire for std::num::NonZeroU128 { open spec fn bytes(&self) -> Seq<u8> { (self@ as u128).bytes() } }
+//@ macro crates/serialize/src/encode.rs :: impl_encode_nonzero! :: impl Encode for std::num::NonZeroU128
+//@ member encode
+//@ end
+//@ macro crates/serialize/src/decode.rs :: impl_decode_nonzero!(std::num::NonZeroU128, u128)
+//@ extra
+    proof fn prefix_free(a: &Self, b: &Self, ta: Seq<u8>, tb: Seq<u8>) { u128::prefix_free(&(a@ as u128), &(b@ as u128), ta, tb); }
+//@ member decode
+//@ head
+        broadcast use group_inj;
+//@ end
+impl Wire for std::num::NonZeroUsize { open spec fn bytes(&self) -> Seq<u8> { (self@ as usize).bytes() } }
+//@ macro crates/serialize/src/encode.rs :: impl_encode_nonzero! :: impl Encode for std::num::NonZeroUsize
+//@ member encode
+//@ end
+//@ macro crates/serialize/src/decode.rs :: impl_decode_nonzero!(std::num::NonZeroUsize, usize)
+//@ extra
+    proof fn prefix_free(a: &Self, b: &Self, ta: Seq<u8>, tb: Seq<u8>) { usize::prefix_free(&(a@ as usize), &(b@ as usize), ta, tb); }
+//@ member decode
+//@ head
+        broadcast use group_inj;
+//@ end
+impl Wire for std::num::NonZeroI8 { open spec fn bytes(&self) -> Seq<u8> { (self@ as i8).bytes() } }
+//@ macro crates/serialize/src/encode.rs :: impl_encode_nonzero! :: impl Encode for std::num::NonZeroI8
+//@ member encode
+//@ end
+//@ macro crates/serialize/src/decode.rs :: impl_decode_nonzero!(std::num::NonZeroI8, i8)
+//@ extra
+    proof fn prefix_free(a: &Self, b: &Self, ta: Seq<u8>, tb: Seq<u8>) { i8::prefix_free(&(a@ as i8), &(b@ as i8), ta, tb); }
+//@ member decode
+//@ head
+        broadcast use group_inj;
+//@ end
+impl Wire for std::num::NonZeroI16 { open spec fn bytes(&self) -> Seq<u8> { (self@ as i16).bytes() } }
+//@ macro crates/serialize/src/encode.rs :: impl_encode_nonzero! :: impl Encode for std::num::NonZeroI16
+//@ member encode
+//@ end
+//@ macro crates/serialize/src/decode.rs :: impl_decode_nonzero!(std::num::NonZeroI16, i16)
+//@ extra
+    proof fn prefix_free(a: &Self, b: &Self, ta: Seq<u8>, tb: Seq<u8>) { i16::prefix_free(&(a@ as i16), &(b@ as i16), ta, tb); }
+//@ member decode
+//@ head
+        broadcast use group_inj;
+//@ end
+impl Wire for std::num::NonZeroI32 { open spec fn bytes(&self) -> Seq<u8> { (self@ as i32).bytes() } }
+//@ macro crates/serialize/src/encode.rs :: impl_encode_nonzero! :: impl Encode for std::num::NonZeroI32
+//@ member encode
+//@ end
+//@ macro crates/serialize/src/decode.rs :: impl_decode_nonzero!(std::num::NonZeroI32, i32)
+//@ extra
+    proof fn prefix_free(a: &Self, b: &Self, ta: Seq<u8>, tb: Seq<u8>) { i32::prefix_free(&(a@ as i32), &(b@ as i32), ta, tb); }
+//@ member decode
+//@ head
+        broadcast use group_inj;
+//@ end
+impl Wire for std::num::NonZeroI64 { open spec fn bytes(&self) -> Seq<u8> { (self@ as i64).bytes() } }
+//@ macro crates/serialize/src/encode.rs :: impl_encode_nonzero! :: impl Encode for std::num::NonZeroI64
+//@ member encode
+//@ end
+//@ macro crates/serialize/src/decode.rs :: impl_decode_nonzero!(std::num::NonZeroI64, i64)
+//@ extra
+    proof fn prefix_free(a: &Self, b: &Self, ta: Seq<u8>, tb: Seq<u8>) { i64::prefix_free(&(a@ as i64), &(b@ as i64), ta, tb); }
+//@ member decode
+//@ head
+        broadcast use group_inj;
+//@ end
+impl Wire for std::num::NonZeroI128 { open spec fn bytes(&self) -> Seq<u8> { (self@ as i128).bytes() } }
+//@ macro crates/serialize/src/encode.rs :: impl_encode_nonzero! :: impl Encode for std::num::NonZeroI128
+//@ member encode
+//@ end
+//@ macro crates/serialize/src/decode.rs :: impl_decode_nonzero!(std::num::NonZeroI128, i128)
+//@ extra
+    proof fn prefix_free(a: &Self, b: &Self, ta: Seq<u8>, tb: Seq<u8>) { i128::prefix_free(&(a@ as i128), &(b@ as i128), ta, tb); }
+//@ member decode
+//@ head
+        broadcast use group_inj;
+//@ end
+impl Wire for std::num::NonZeroIsize { open spec fn bytes(&self) -> Seq<u8> { (self@ as isize).bytes() } }
+//@ macro crates/serialize/src/encode.rs :: impl_encode_nonzero! :: impl Encode for std::num::NonZeroIsize
+//@ member encode
+//@ end
+//@ macro crates/serialize/src/decode.rs :: impl_decode_nonzero!(std::num::NonZeroIsize, isize)
+//@ extra
+    proof fn prefix_free(a: &Self, b: &Self, ta: Seq<u8>, tb: Seq<u8>) { isize::prefix_free(&(a@ as isize), &(b@ as isize), ta, tb); }
+//@ member decode
+//@ head
+        broadcast use group_inj;
 //@ end
 
 } // verus!
